@@ -85,6 +85,29 @@ func vpH_C05_Relationship()          { vpC05Doc(vpTypeIndex("Relationship")) }
 func vpH_C05_Tombstone()             { vpC05Doc(vpTypeIndex("Tombstone")) }
 func vpH_C05_Link()                  { vpC05Doc(vpTypeIndex("Link")) }
 
+// documents whose texts need escaping: decode, then the re-encoding is a fixpoint
+func vpH_C05_text_fixpoint() {
+	texts := []string{`a\u2028b`, `\u2029`, `<p>Hi & \"you\"</p>`, `line1\nline2\ttab`, `\ud83d\ude00 \u00e9`, `C:\\new\\table`, `\\u0041`, `\u0001\u001f\u007f`}
+	t := texts[vpChoice(len(texts))]
+	var doc string
+	switch vpChoice(4) {
+	case 0:
+		doc = `{"id":"https://h.ex/i","type":"Note","name":"` + t + `"}`
+	case 1:
+		doc = `{"id":"https://h.ex/i","type":"Note","contentMap":{"en":"` + t + `","fr":"x"}}`
+	case 2:
+		doc = `{"id":"https://h.ex/i","type":"Person","preferredUsername":"` + t + `"}`
+	default:
+		doc = `{"id":"https://h.ex/i","type":"Note","source":{"content":"` + t + `","mediaType":"text/x"}}`
+	}
+	y, err := UnmarshalJSON([]byte(doc))
+	vpAssert("text-fixpoint/decodes", err == nil && y != nil)
+	if y != nil {
+		vpC05Fixpoint("text", y)
+	}
+	vpReach("end")
+}
+
 // the repository's mock documents decode, and their re-encoding is a fixpoint
 func vpH_C05_mocks() {
 	m := vpMockDocs[vpChoice(len(vpMockDocs))]
